@@ -312,8 +312,9 @@ class Sim:
     type lives in the same process and loop (the bystander): whatever happens to the first one, the bystander must
     stay connected on its own link and receive exactly what its gateway sends."""
 
-    def __init__(self, loop: vloop.VirtualLoop, kind: str, client_kwargs=None, status_cb="ok", recv_cb="ok", bystander=False, cb_style="method"):
+    def __init__(self, loop: vloop.VirtualLoop, kind: str, client_kwargs=None, status_cb="ok", recv_cb="ok", bystander=False, cb_style="method", subclass=None):
         from collections import Counter
+        self.subclass = subclass          # callable(library client class) -> the application's subclass of it to instantiate
         self.cb_style = cb_style
         self.with_bystander = bystander
         self.by_client = None
@@ -359,14 +360,15 @@ class Sim:
     # --- client + callbacks --------------------------------------------------------------------
     def make_client(self):
         kw = self.client_kwargs
+        sub = self.subclass or (lambda cls_: cls_)
         if self.kind == "ebyte":
-            c = EByteNmea2000Gateway("sim-gateway", 8881, **kw)
+            c = sub(EByteNmea2000Gateway)("sim-gateway", 8881, **kw)
         elif self.kind == "actisense":
-            c = ActisenseNmea2000Gateway("sim-gateway", 8881, **kw)
+            c = sub(ActisenseNmea2000Gateway)("sim-gateway", 8881, **kw)
         elif self.kind == "yd":
-            c = YachtDevicesNmea2000Gateway("sim-gateway", 8881, **kw)
+            c = sub(YachtDevicesNmea2000Gateway)("sim-gateway", 8881, **kw)
         else:
-            c = WaveShareNmea2000Gateway("/dev/sim-serial", **kw)
+            c = sub(WaveShareNmea2000Gateway)("/dev/sim-serial", **kw)
         self.client = c
         c.set_receive_callback(self._styled(self._on_receive))
         c.set_status_callback(self._styled(self._on_status))
@@ -710,13 +712,13 @@ def judge_bystander(sim, acc, w):
                       f"state {b['state']}, {b['connections']} connection(s), link open: {b['link_open']}", dict(w, bystander=b))
 
 
-def run_session(kind, scenario, client_kwargs=None, status_cb="ok", recv_cb="ok", max_steps=100_000, bystander=False, cb_style="method"):
+def run_session(kind, scenario, client_kwargs=None, status_cb="ok", recv_cb="ok", max_steps=100_000, bystander=False, cb_style="method", subclass=None):
     """scenario: async def scenario(sim) run inside the virtual loop with the factories patched.
     Returns (sim, stats)."""
     box = {}
 
     async def main(loop):
-        sim = Sim(loop, kind, client_kwargs, status_cb, recv_cb, bystander, cb_style)
+        sim = Sim(loop, kind, client_kwargs, status_cb, recv_cb, bystander, cb_style, subclass)
         box["sim"] = sim
         with sim.patched():
             sim.make_client()
